@@ -9,7 +9,7 @@ SPEC = {
     'bounds': {'quick': 'accepted tables of <= 2 hits, <= 2 ceilometers (every height incl. NaN, type -1..4, any times) x '
                         '5 parameter families with symbolic leaves; 3-hit tables with default parameters; '
                         'H-group: constructed post-slicing states with <= 4 hits in <= 3 slices',
-               'thorough': 'tables of <= 3 hits for all parameter families; H-group <= 5 hits'},
+               'thorough': 'tables of <= 2 hits on 2 ceilometers for all parameter families, 3 hits for two of them, real checker at <= 2 hits; every bundle shape of <= 4 hits, also with symbolic slicing/grouping scales'},
     'outside': 'failures inside scikit-learn / statsmodels / numpy / pandas for arguments within their documented '
                'preconditions (convergence, LinAlgError, LOWESS NaN), termination of their iterations; tables larger than the bound',
     'budget_s': {'quick': 1200, 'thorough': 3600},
@@ -26,7 +26,7 @@ def h_group(E, shape, pvar):
 
 HARNESSES = [
     H('H-run', h_run, quick=[(1, 1, 0, 1), (1, 1, 1, 1), (1, 1, 2, 1), (2, 1, 0, 1), (2, 2, 0, 0), (2, 1, 1, 0), (2, 1, 2, 0), (2, 1, 3, 0), (2, 1, 4, 0), (2, 2, 5, 0)],
-      thorough=[(n, c, p, 0) for n in (1, 2, 3) for c in (1, 2) for p in range(6) if c <= n and not (n == 3 and c == 2 and p)] +
+      thorough=[(n, c, p, 0) for n in (1, 2) for c in (1, 2) for p in range(6) if c <= n] + [(3, 1, 0, 0), (3, 1, 2, 0)] +
                [(1, 1, p, 1) for p in range(6)] + [(2, 2, 0, 1), (2, 1, 1, 1), (2, 1, 2, 1)],
       float_model='R',
       cover=['one valid hit', 'only non-detections', 'type-1 hit with NaN height (warning-only anomaly)',
@@ -35,7 +35,7 @@ HARNESSES = [
                    'copy with the four required columns (its contract is decided by C15); last entry 1: the real checker runs'],
       doc='real run() + metar_msg() for every accepted table of the size: no exception of any kind'),
     H('H-group', h_group, quick=[('0', 0), ('01', 0), ('00', 0), ('012', 0), ('001', 0), ('0012', 0), ('0122', 0)],
-      thorough=[(sh, p) for sh in ('0', '01', '00', '012', '001', '011', '0012', '0122', '0112', '0123', '00123') for p in (0, 3)],
+      thorough=[(sh, p) for sh in ('0', '01', '00', '012', '001', '011', '0012', '0122', '0112', '0123') for p in (0, 3)],
       float_model='R', cover=['a bundle of overlapping slices', 'an isolated slice', 'a bundle left with a single one-hit slice'],
       assumptions=['H-group: state after slicing constructed directly (one ceilometer, type 1, times increasing with the row '
                    'index, every valid partition shape listed in the size vector); per-bundle clustering answers an arbitrary partition'],
